@@ -380,5 +380,190 @@ def tables_check(ctx):
     return 0
 
 
-REGISTRY = {"C01": crystal_check, "C02": crystal_check, "C04": crystal_check, "C15": crystal_check,
+def parser_check(ctx):
+    pid, tier, seed, t0 = ctx["pid"], ctx["tier"], ctx["seed"], ctx["t0"]
+    vp.build_harness()
+    th = tier == "thorough"
+    d = os.path.join(vp.WORK, "C17")
+    os.makedirs(d, exist_ok=True)
+    if ctx.get("replay"):
+        rp = json.load(open(ctx["replay"]))
+        nd = os.path.join(d, "replay.ndjson")
+        with open(nd, "w") as f:
+            for x in rp["failures"]:
+                f.write(json.dumps(x["state"]) + "\n")
+        res = os.path.join(d, "replay_result.json")
+        vp.pvh(["parser", "--in", nd, "--out", res])
+        t = json.load(open(res))["C17"]
+        if t["failures"]:
+            print("VIOLATION property=%s replay=%s" % (pid, ctx["replay"]))
+            return 1
+        return 0
+    defs = {"GDig": vp.tla_set(list(range(10)) if th else [0, 1, 2, 3, 9]),
+            "GDen": vp.tla_set(list(range(10)) if th else [0, 2, 3, 4, 9]),
+            "GPart": vp.tla_set([1, 2, 3] if th else [1, 3]),
+            "GVar": "{<<FALSE, 0, FALSE>>, <<TRUE, 1, FALSE>>, <<FALSE, 2, TRUE>>" + (", <<TRUE, 0, TRUE>>, <<FALSE, 1, TRUE>>}" if th else "}")}
+    cfg = ("SPECIFICATION Spec\nCONSTANTS\n  Digits <- GDig\n  Denoms <- GDen\n  Partners <- GPart\n"
+           "  Variants <- GVar\nINVARIANTS AutomatonCorrect Emit\nCHECK_DEADLOCK FALSE\n")
+    r = vp.run_tlc("GenParser", cfg, "C17_grammar", workers=12, timeout=3000, xmx="12g", deque=False,
+                   root_text=vp.gen_module("GenParser", "MC_Parser", defs))
+    if r.get("error") or r["violations"]:
+        # AutomatonCorrect failing is a defect of the transcribed design, reported as a tool error
+        vp.log("TOOL-ERROR: TLC on Parser: %s %s" % (r.get("error"), r["violations"]))
+        vp.log(r["text_tail"][-1500:])
+        return 2
+    nd = os.path.join(r["dir"], "emitted.ndjson")
+    n1 = vp.extract_emitted(r["out"], nd)
+    jcfg = "SPECIFICATION Spec\nCONSTANTS L = %d\nINVARIANTS Emit\nCHECK_DEADLOCK FALSE\n" % (4 if th else 3)
+    rj = vp.run_tlc("MC_ParserJunk", jcfg, "C17_junk", workers=4, timeout=1200)
+    if rj.get("error") or rj["violations"]:
+        vp.log("TOOL-ERROR: TLC on ParserJunk", rj.get("error"))
+        return 2
+    ndj = os.path.join(rj["dir"], "emitted.ndjson")
+    n2 = vp.extract_emitted(rj["out"], ndj)
+    # TLA+ has no escapes for non-ASCII characters: the enumerator writes \uXXXX literally
+    allnd = os.path.join(d, "all.ndjson")
+    with open(allnd, "w") as o:
+        o.write(open(nd).read())
+        o.write(open(ndj).read().replace("\\\\u", "\\u"))
+    res = os.path.join(d, "result.json")
+    vp.pvh(["parser", "--in", allnd, "--out", res])
+    t = json.load(open(res))["C17"]
+    failures = [(f["what"], f.get("state")) for f in t["first_failures"]]
+    samples = [json.loads(l) for l in open(allnd).read().splitlines()[5:8]] + \
+              [json.loads(l) for l in open(allnd).read().splitlines()[-3:]]
+    coverage = {"states": r["distinct"] + rj["distinct"], "transitions": r["generated"] + rj["generated"],
+                "traces_validated_against_impl": n1 + n2, "samples": samples,
+                "grammar_strings": n1, "other_strings": n2, "other_parsed": t["junk_parsed"],
+                "other_rejected": t["junk_rejected"], "exhaustive": True,
+                "rule": "grammar strings: every component (<=3 signed terms of distinct kinds, constants d or d/e over the digit sets) in either position with a fixed partner, "
+                        "x lead-plus/spacing/parenthesis variants; TLC runs the transcribed character automaton over each (one state per character) and checks Automaton = Denote; "
+                        "the real parser must return exactly Denote. other strings: every string up to length %d over a 15-symbol alphabet with junk; must not panic" % (4 if th else 3)}
+    rc = finish(pid, tier, seed, t0, coverage, failures,
+                ["bounded by the digit sets and the string length stated in `rule`"])
+    vp.log("[C17] parser: %d grammar strings, %d other strings (%d parsed, %d rejected), %.0fs"
+           % (n1, n2, t["junk_parsed"], t["junk_rejected"], time.time() - t0))
+    return rc
+
+
+def lattice_check(ctx):
+    pid, tier, seed, t0 = ctx["pid"], ctx["tier"], ctx["seed"], ctx["t0"]
+    vp.build_harness()
+    if ctx.get("replay"):
+        rp = json.load(open(ctx["replay"]))
+        d = os.path.join(vp.WORK, "C14_replay")
+        os.makedirs(d, exist_ok=True)
+        nd = os.path.join(d, "replay.ndjson")
+        with open(nd, "w") as f:
+            for x in rp["failures"]:
+                f.write(json.dumps(x["state"]) + "\n")
+        res = os.path.join(d, "result.json")
+        vp.pvh(["lattice", "--in", nd, "--out", res])
+        if json.load(open(res))["C14"]["failures"]:
+            print("VIOLATION property=%s replay=%s" % (pid, ctx["replay"]))
+            return 1
+        return 0
+    th = tier == "thorough"
+    defs = {"GFam": vp.tla_set(["Monoclinic", "Orthorhombic", "Hexagonal", "Tetragonal"]),
+            "GAx": vp.tla_set([10, 25, 64] + ([7, 40] if th else [])),
+            "GB": vp.tla_set([(0, 10), (0, 25), (15, 20), (12, 5), (5, 12), (32, 55)] + ([(0, 64), (9, 12), (24, 7), (3, 4)] if th else [])),
+            "GFrac": vp.tla_set([-21, -8, -4, -1, 0, 3, 4, 6, 13] + ([-16, -3, 1, 8, 20] if th else [])),
+            "GOr": vp.tla_set([1, 5, 14] + ([2, 7, 11] if th else [])),
+            "GK": vp.tla_set([0, 1, 2, 3] + ([4] if th else []))}
+    cfg = ("SPECIFICATION Spec\nCONSTANTS\n  U = 10\n  D = 8\n  FamSet <- GFam\n  AxSet <- GAx\n  BSet <- GB\n"
+           "  FracSet <- GFrac\n  OrientSet <- GOr\n  KSet <- GK\nINVARIANTS ModelOK Emit\nCHECK_DEADLOCK FALSE\n")
+    r = vp.run_tlc("GenLattice", cfg, "C14_lattice", workers=16, timeout=3000, xmx="12g", deque=False,
+                   root_text=vp.gen_module("GenLattice", "MC_Lattice", defs))
+    if r.get("error") or r["violations"]:
+        vp.log("TOOL-ERROR: TLC on Lattice: %s %s" % (r.get("error"), r["violations"]))
+        vp.log(r["text_tail"][-1500:])
+        return 2
+    nd = os.path.join(r["dir"], "emitted.ndjson")
+    n = vp.extract_emitted(r["out"], nd)
+    res = os.path.join(r["dir"], "result.json")
+    vp.pvh(["lattice", "--in", nd, "--out", res])
+    t = json.load(open(res))["C14"]
+    failures = [(f["what"], f.get("state")) for f in t["first_failures"]]
+    with open(nd) as fh:
+        sample = json.loads(fh.readline())
+    sample["images"] = sample["images"][:4]
+    coverage = {"states": r["distinct"], "transitions": r["generated"], "traces_validated_against_impl": n,
+                "samples": [sample], "images_checked": t["images_checked"], "sets": defs, "exhaustive": True,
+                "rule": "every (family label, cell, placement anywhere in the plane, orientation, shell count, zero flag) of the grid: "
+                        "to_cartesian / _point / _isometry / _translate, periodic_images (as a multiset, orientation unchanged), area and corners against TLC's integers"}
+    rc = finish(pid, tier, seed, t0, coverage, failures,
+                ["rational cells only (3-4-5, 5-12-13, 32-55 and rectangular); the family is a label set through serde for all four families"])
+    vp.log("[C14] lattice: %d states, %d images, %.0fs" % (n, t["images_checked"], time.time() - t0))
+    return rc
+
+
+def lj_check(ctx):
+    pid, tier, seed, t0 = ctx["pid"], ctx["tier"], ctx["seed"], ctx["t0"]
+    vp.build_harness()
+    th = tier == "thorough"
+    d = os.path.join(vp.WORK, "C13")
+    os.makedirs(d, exist_ok=True)
+    if ctx.get("replay"):
+        rp = json.load(open(ctx["replay"]))
+        nd = os.path.join(d, "replay.ndjson")
+        with open(nd, "w") as f:
+            for x in rp["failures"]:
+                if isinstance(x["state"], dict) and ("qa" in x["state"] or "k" in x["state"]):
+                    f.write(json.dumps(x["state"]) + "\n")
+        res = os.path.join(d, "replay_result.json")
+        vp.pvh(["lj", "--in", nd, "--out", res])
+        if json.load(open(res))["C13"]["failures"]:
+            print("VIOLATION property=%s replay=%s" % (pid, ctx["replay"]))
+            return 1
+        return 0
+    qs = [(1, 2), (1, 1), (2, 1), (1, 3), (3, 4), (1, 8), (1, 20), (3, 2), (5, 1), (1, 64), (9, 16), (27, 64)]
+    if th:
+        qs += [(a, b) for a in range(1, 13) for b in range(1, 13) if (a, b) not in qs]
+    cuts = [(0, 1), (1, 8), (1, 20), (1, 2), (3, 4), (1, 64), (1, 1)]
+    if th:
+        cuts += [(1, 3), (9, 16), (2, 1), (1, 100), (1, 1838)]
+    defs = {"GEps": vp.tla_set([(1, 2), (1, 1), (2, 1)] + ([(3, 10), (7, 2)] if th else [])),
+            "GQ": vp.tla_set(qs), "GCut": vp.tla_set(cuts)}
+    cfg = "SPECIFICATION Spec\nCONSTANTS\n  EpsSet <- GEps\n  QSet <- GQ\n  CutSet <- GCut\nINVARIANTS ModelOK Emit\nCHECK_DEADLOCK FALSE\n"
+    r = vp.run_tlc("GenLJ", cfg, "C13_pair", workers=4, timeout=1200, root_text=vp.gen_module("GenLJ", "MC_LJ", defs))
+    offs = [-4, -2, -1, 0, 1, 2, 3, 5] + ([-9, -6, 4, 7, 10] if th else [])
+    mdefs = {"GOff": vp.tla_set(offs), "GC2": vp.tla_set([0, 12] + ([6, 30] if th else []))}
+    mcfg = "SPECIFICATION Spec\nCONSTANTS\n  OffSet <- GOff\n  CutSet <- GC2\nINVARIANTS ModelOK Emit\nCHECK_DEADLOCK FALSE\n"
+    rm = vp.run_tlc("GenLJMol", mcfg, "C13_mol", workers=8, timeout=1200, xmx="8g", deque=False,
+                    root_text=vp.gen_module("GenLJMol", "MC_LJMol", mdefs))
+    for x in (r, rm):
+        if x.get("error") or x["violations"]:
+            vp.log("TOOL-ERROR: TLC on LJ: %s %s" % (x.get("error"), x["violations"]))
+            vp.log(x["text_tail"][-1500:])
+            return 2
+    nd1 = os.path.join(r["dir"], "emitted.ndjson")
+    n1 = vp.extract_emitted(r["out"], nd1)
+    nd2 = os.path.join(rm["dir"], "emitted.ndjson")
+    n2 = vp.extract_emitted(rm["out"], nd2)
+    allnd = os.path.join(d, "all.ndjson")
+    with open(allnd, "w") as o:
+        o.write(open(nd1).read())
+        o.write(open(nd2).read())
+    res = os.path.join(d, "result.json")
+    vp.pvh(["lj", "--in", allnd, "--out", res])
+    t = json.load(open(res))["C13"]
+    failures = [(f["what"], f.get("state")) for f in t["first_failures"]]
+    lines = open(allnd).read().splitlines()
+    coverage = {"states": r["distinct"] + rm["distinct"], "transitions": r["generated"] + rm["generated"],
+                "traces_validated_against_impl": n1 + n2,
+                "samples": [json.loads(lines[0]), json.loads(lines[len(lines) // 3]), json.loads(lines[-1])],
+                "pair_cases": n1, "by_cutoff_case": t["by_case"], "molecule_cases": n2,
+                "unlike_pairs_checked_for_symmetry": t["unlike_pairs"], "real_energy_evaluations": t["evaluations"],
+                "exhaustive": True,
+                "rule": "pair law: every (eps, q, cutoff case) of the rational sets, realised at 4 sigmas x 4 rigid motions/reflections x 3 directions x both argument orders; "
+                        "molecules: every pair of catalogue molecules x quarter turns x integer offsets, TLC lists the squared distances of all particle pairs"}
+    rc = finish(pid, tier, seed, t0, coverage, failures,
+                ["the value of the law for a listed squared distance is evaluated by the harness in f64 (TLC supplies the exact rational for single pairs and the pair structure for molecules)",
+                 "unlike particles: only symmetry and distance-dependence are asserted (the property fixes no mixing rule)"])
+    vp.log("[C13] LJ law: %d pair cases %s, %d molecule cases, %d unlike pairs, %.0fs"
+           % (n1, t["by_case"], n2, t["unlike_pairs"], time.time() - t0))
+    return rc
+
+
+REGISTRY = {"C13": lj_check, "C14": lattice_check, "C17": parser_check, "C01": crystal_check, "C02": crystal_check, "C04": crystal_check, "C15": crystal_check,
             "C12": pairs_check, "C16": tables_check}
